@@ -1232,6 +1232,7 @@ package ion
 //@ ensures[C19] old(len(t.buffer)) == 0 && old(tkAvail(t)) == 0 && old(tkS(t).end) != io.EOF ==> err != nil
 //@ ensures[C19] old(len(t.buffer)) == 0 && old(tkAvail(t)) == 1 && old(tkByte(t, 0)) == 13 && old(tkS(t).end) != io.EOF ==> err != nil
 //@ ensures[C02,C08] forall k int :: 0 <= k && k < len(t.buffer) ==> t.buffer[k] == old(t.buffer[k])
+//@ ensures[C02,C08] old(len(t.buffer)) == 0 ==> len(t.buffer) == 0
 //@ safe[C06]
 
 //@ func (*tokenizer).unread
@@ -1744,3 +1745,65 @@ package ion
 //@ lemma[C01,C13] varIntRoundTrip [data []byte, p int, v int64] 0 <= p && p <= len(data) && p+10 <= len(data) && specHoldsVarInt(data, p, v) ==>
 //@    specVarUintEndAt(data, p) == specVarIntLen(v) && specVarIntValue(data, p, specVarIntLen(v)) == v && (v < 0 ==> specVarIntSign(data, p) == -1) && (v > 0 ==> specVarIntSign(data, p) == 1)
 //@ lemma[C01,C13] intMagnitudeRoundTrip [v int64] v != 0 ==> specUintLen(specMag(v)) >= 1 && specUintLen(specMag(v)) <= 8 && ((specIntCode(v) == 0x30) == (v < 0))
+
+// ---------------------------------------------------------------------------
+// tokenizer.go: escape sequences denote exactly the character the Ion text grammar gives
+// them (C02), a clob escape denotes exactly one byte (C01), anything else is an error (C07).
+
+//@ func (*tokenizer).invalidChar
+//@ modifies nothing
+//@ ensures[C07] err != nil
+
+//@ func (*tokenizer).fromHex
+//@ split returns
+//@ modifies nothing
+//@ ensures[C02] 0 <= c && c <= 255 && specHexDigit(byte(c)) >= 0 ==> err == nil && result == specHexDigit(byte(c))
+//@ ensures[C02,C07] c < 0 || c > 255 || specHexDigit(byte(c)) < 0 ==> err != nil
+//@ safe[C06]
+
+//@ func (*tokenizer).readHexEscapeSeq
+//@ split returns
+//@ requires tkStream(t) && (length == 2 || length == 4 || length == 8)
+//@ invariant loop0 [length_cur int, val rune] tkStream(t) && 0 <= length_cur && length_cur <= length
+//@ invariant loop0 [length_cur int, val rune] old(len(t.buffer)) == 0 ==>
+//@    len(t.buffer) == 0 && tkS(t).cur == old(tkS(t).cur)+(length-length_cur) && length-length_cur <= old(tkAvail(t))
+//@ invariant loop0 [length_cur int, val rune] old(len(t.buffer)) == 0 && length-length_cur == 0 ==> old(specAllHex(t, 0)) && uint32(val) == old(specHexValue(t, 0))
+//@ invariant loop0 [length_cur int, val rune] old(len(t.buffer)) == 0 && length-length_cur == 1 ==> old(specAllHex(t, 1)) && uint32(val) == old(specHexValue(t, 1))
+//@ invariant loop0 [length_cur int, val rune] old(len(t.buffer)) == 0 && length-length_cur == 2 ==> old(specAllHex(t, 2)) && uint32(val) == old(specHexValue(t, 2))
+//@ invariant loop0 [length_cur int, val rune] old(len(t.buffer)) == 0 && length-length_cur == 3 ==> old(specAllHex(t, 3)) && uint32(val) == old(specHexValue(t, 3))
+//@ invariant loop0 [length_cur int, val rune] old(len(t.buffer)) == 0 && length-length_cur == 4 ==> old(specAllHex(t, 4)) && uint32(val) == old(specHexValue(t, 4))
+//@ invariant loop0 [length_cur int, val rune] old(len(t.buffer)) == 0 && length-length_cur == 5 ==> old(specAllHex(t, 5)) && uint32(val) == old(specHexValue(t, 5))
+//@ invariant loop0 [length_cur int, val rune] old(len(t.buffer)) == 0 && length-length_cur == 6 ==> old(specAllHex(t, 6)) && uint32(val) == old(specHexValue(t, 6))
+//@ invariant loop0 [length_cur int, val rune] old(len(t.buffer)) == 0 && length-length_cur == 7 ==> old(specAllHex(t, 7)) && uint32(val) == old(specHexValue(t, 7))
+//@ invariant loop0 [length_cur int, val rune] old(len(t.buffer)) == 0 && length-length_cur == 8 ==> old(specAllHex(t, 8)) && uint32(val) == old(specHexValue(t, 8))
+//@ invariant loop0 [length_cur int, val rune] length == 2 ==> 0 <= val && (length_cur == 2 ==> val == 0) && (length_cur == 1 ==> val <= 15) && val <= 255
+//@ modifies t.pos, t.buffer, vcStreamOf(t.in).cur
+//@ ensures[C06,C19] tkStream(t)
+//@ ensures[C02] length == 2 && old(len(t.buffer)) == 0 && old(tkAvail(t)) >= 2 && old(specAllHex(t, 2)) ==> err == nil && uint32(result) == old(specHexValue(t, 2)) && tkS(t).cur == old(tkS(t).cur)+2
+//@ ensures[C02,C07] length == 2 && old(len(t.buffer)) == 0 && old(tkAvail(t)) >= 2 && !old(specAllHex(t, 2)) ==> err != nil
+//@ ensures[C02] length == 4 && old(len(t.buffer)) == 0 && old(tkAvail(t)) >= 4 && old(specAllHex(t, 4)) ==> err == nil && uint32(result) == old(specHexValue(t, 4)) && tkS(t).cur == old(tkS(t).cur)+4
+//@ ensures[C02,C07] length == 4 && old(len(t.buffer)) == 0 && old(tkAvail(t)) >= 4 && !old(specAllHex(t, 4)) ==> err != nil
+//@ ensures[C02] length == 8 && old(len(t.buffer)) == 0 && old(tkAvail(t)) >= 8 && old(specAllHex(t, 8)) ==> err == nil && uint32(result) == old(specHexValue(t, 8)) && tkS(t).cur == old(tkS(t).cur)+8
+//@ ensures[C02,C07] length == 8 && old(len(t.buffer)) == 0 && old(tkAvail(t)) >= 8 && !old(specAllHex(t, 8)) ==> err != nil
+//@ ensures[C07,C19] old(len(t.buffer)) == 0 && old(tkAvail(t)) < length && old(tkS(t).end) != nil ==> err != nil
+//@ ensures[C01,C02] err == nil && length == 2 ==> 0 <= result && result <= 255
+//@ safe[C06]
+
+//@ func (*tokenizer).readEscapedChar
+//@ split returns
+//@ requires tkStream(t)
+//@ modifies t.pos, t.buffer, vcStreamOf(t.in).cur
+//@ ensures[C06,C19] tkStream(t)
+//@ ensures[C02] old(len(t.buffer)) == 0 && old(tkAvail(t)) > 0 && specSimpleEscape(old(tkByte(t, 0))) >= 0 ==> err == nil && result == specSimpleEscape(old(tkByte(t, 0))) && tkS(t).cur == old(tkS(t).cur)+1
+//@ ensures[C02,C07] old(len(t.buffer)) == 0 && old(tkAvail(t)) > 0 && specSimpleEscape(old(tkByte(t, 0))) < 0 && old(tkByte(t, 0)) != 'x' && old(tkByte(t, 0)) != 'u' && old(tkByte(t, 0)) != 'U' ==> err != nil
+//@ ensures[C02,C07] isClob && old(len(t.buffer)) == 0 && old(tkAvail(t)) > 0 && (old(tkByte(t, 0)) == 'u' || old(tkByte(t, 0)) == 'U') ==> err != nil
+//@ ensures[C01,C02] isClob && err == nil ==> 0 <= result && result <= 255
+//@ safe[C06]
+
+//@ func processBackslashInClob
+//@ split returns
+//@ requires t != nil && ret != nil && tkStream(t)
+//@ modifies t.pos, t.buffer, vcStreamOf(t.in).cur, *ret
+//@ ensures[C01,C02] len(*ret) == old(len(*ret)) || len(*ret) == old(len(*ret))+1
+//@ ensures[C01,C02] forall k int :: 0 <= k && k < old(len(*ret)) ==> (*ret)[k] == old((*ret)[k])
+//@ safe[C06]
